@@ -157,6 +157,7 @@ pub fn noise_strategy() -> impl Strategy<Value = JaxNoise> {
         any::<bool>(),
     )
         .prop_map(|(gene_header, extra_tags, typedefs, comments, extra_cols, explicit_false, isa_modifier, blank_rows)| JaxNoise {
+            no_header: false,
             gene_header,
             extra_tags,
             typedefs,
@@ -203,7 +204,9 @@ pub fn ont_case_strategy(max_terms: usize, max_recs: usize, rich_names: bool) ->
         ],
         noise_strategy(),
     )
-        .prop_map(|(facts, path, noise)| {
+        .prop_map(|(mut facts, path, mut noise)| {
+            let sel = noise.comments.wrapping_mul(3).wrapping_add(noise.typedefs);
+            maybe_headerless(&mut facts, path, &mut noise, sel);
             // sub_ontology searches shortest chains with a recursion that is exponential in the
             // number of alternative routes: keep that path to small graphs
             let path = if matches!(path, PathSel::Sub { .. }) && facts.terms.len() > 22 { PathSel::Bin(3) } else { path };
@@ -282,5 +285,13 @@ pub fn build_auto(f: &Facts) -> Result<(Ontology, &'static str), String> {
         via_binary(f, 3).map(|o| (o, "bin-v3"))
     } else {
         via_builder(f, Finish::Minimal).map(|o| (o, "builder"))
+    }
+}
+
+/// One text-loader case in eight has no header block in hp.obo; the facts then carry version (0,0,0).
+pub fn maybe_headerless(facts: &mut Facts, path: PathSel, noise: &mut JaxNoise, sel: u8) {
+    if matches!(path, PathSel::Jax | PathSel::JaxT) && sel % 8 == 0 {
+        noise.no_header = true;
+        facts.version = (0, 0, 0);
     }
 }
